@@ -211,6 +211,13 @@ class IntrospectablePass(object):
                 if field.type:
                     if not self._type_is_introspectable(field.type):
                         field.introspectable = False
+        if isinstance(obj, ast.Constant):
+            # The typelib stores the value of a constant according to its type;
+            # a value of unknown or of pointer type cannot be stored and the
+            # typelib compiler rejects the whole file
+            if (not self._type_is_introspectable(obj.value_type)
+                    or obj.value_type.is_equiv(ast.TYPE_ANY)):
+                obj.introspectable = False
         return True
 
     def _introspectable_callable_analysis(self, obj, stack):
